@@ -27,7 +27,7 @@ def run(ctx):
             s["order"] = []          # everything released up-front
             s["expect"] = {"outcome": "done", "errors": [], "ran": b["ran"]}
             specs.append(s)
-    obs = core.pmap(sc.run_and_trace, specs, procs=6, chunksize=1)
+    obs = core.tmap(sc.run_and_trace, specs, threads=8)
     items = sc.judge_runs(ctx, specs, obs, "C15")
     if items:
         ctx.sample({"graph": specs[0]["graph"], "K": specs[0]["K"], "order": specs[0]["order"], "events": items[0][2]})
